@@ -175,6 +175,38 @@ pub fn run_c06(o: &crate::Opts) {
             let _ = std::fs::remove_file(dir.join(&name));
             continue;
         }
+        if k % 3 == 1 {
+            // a real assembly source (whole instruction / directive set, random layout): the bytes
+            // `lace compile` writes must be the object-file encoding of the image the assembler
+            // model computes from the same text
+            let stack = rng.chance(1, 2);
+            let n = rng.range(1, 40) as usize;
+            let wild = rng.chance(1, 5);
+            let prog = crate::asmgen::gen_prog(&mut rng, &crate::asmgen::GenOpts { stmts: n, wild, stack });
+            let ps = crate::asmgen::pieces(&mut rng, &prog);
+            let text = crate::asmgen::layout(&mut rng, &ps);
+            let asm = format!("q{}.asm", k);
+            let lc3 = format!("q{}.lc3", k);
+            std::fs::write(dir.join(&asm), &text).unwrap();
+            let mut args = vec!["compile", asm.as_str(), lc3.as_str()];
+            if stack {
+                args.extend_from_slice(&["-f", "stack"]);
+            }
+            let c = spawn(&dir, &args, &[], 10000);
+            let bytes = std::fs::read(dir.join(&lc3)).ok();
+            let obs = match (&c.status, &bytes) {
+                (Some(0), Some(b)) => format!("ok {}", hex(b)),
+                (Some(101), _) => "panic".to_string(),
+                (Some(_), None) => "fail".to_string(),
+                (Some(_), Some(_)) => "fail-but-file-written".to_string(),
+                (None, _) => "timeout".to_string(),
+            };
+            sink.put(&format!("Q06 {} {}", stack as u8, hex(text.as_bytes())), &obs);
+            n_prog += 1;
+            let _ = std::fs::remove_file(dir.join(&asm));
+            let _ = std::fs::remove_file(dir.join(&lc3));
+            continue;
+        }
         let mut p = gen_structured(&mut rng);
         if p.kind == "rti" {
             continue;
@@ -287,6 +319,24 @@ fn replay_c06(dir: &Path, line: &str) -> Option<String> {
                 (Some(0), Some(b)) => format!("ok {}", hex(b)),
                 (Some(101), _) => "panic".to_string(),
                 (Some(s), _) => format!("fail {}", s),
+                (None, _) => "timeout".to_string(),
+            })
+        }
+        "Q06" => {
+            let stack = f[1] != "0";
+            std::fs::write(dir.join("r.asm"), unhex(f[2])?).ok()?;
+            let _ = std::fs::remove_file(dir.join("r.lc3"));
+            let mut args = vec!["compile", "r.asm", "r.lc3"];
+            if stack {
+                args.extend_from_slice(&["-f", "stack"]);
+            }
+            let c = spawn(dir, &args, &[], 10000);
+            let bytes = std::fs::read(dir.join("r.lc3")).ok();
+            Some(match (&c.status, &bytes) {
+                (Some(0), Some(b)) => format!("ok {}", hex(b)),
+                (Some(101), _) => "panic".to_string(),
+                (Some(_), None) => "fail".to_string(),
+                (Some(_), Some(_)) => "fail-but-file-written".to_string(),
                 (None, _) => "timeout".to_string(),
             })
         }
